@@ -42,6 +42,29 @@ def _isnum(x):
     return isinstance(x, (int, float, Fraction)) or (core._np is not None and isinstance(x, core._NPNUM))
 
 
+EXPORT = dict(dir=None, n=0, written=0)   # cross-solver re-check: a sample of discharged obligations as SMT-LIB2
+
+
+def _export(c, neg, label):
+    import os
+    EXPORT['n'] += 1
+    n = EXPORT['n']
+    if EXPORT['written'] >= 25 or not (n <= 4 or n % 61 == 0):
+        return
+    try:
+        s2 = z3.Solver()
+        s2.add(*c.solver.assertions())
+        s2.add(neg)
+        txt = s2.to_smt2()
+        os.makedirs(EXPORT['dir'], exist_ok=True)
+        fn = os.path.join(EXPORT['dir'], f"ob_{os.getpid()}_{n}.smt2")
+        with open(fn, 'w') as f:
+            f.write("; obligation: " + label.replace(chr(10), ' ') + chr(10) + "(set-logic ALL)" + chr(10) + txt)
+        EXPORT['written'] += 1
+    except Exception:  # noqa: BLE001  (export is best effort)
+        pass
+
+
 ROUND_VALUES = [Fraction(k, 2) for k in range(-6, 7)]
 MARGIN = z3.RealVal('1/1000000')
 
@@ -267,6 +290,8 @@ class Sx:
             c.discharged += 1
             if self.sym and c.cache is not None:
                 c.cache.add(key)
+            if EXPORT['dir'] and self.sym:
+                _export(c, neg, label)
             return True
         if not cond:
             m = c.get_model()
